@@ -81,7 +81,11 @@ def site_scenario(case):
             if case['site'] == 'handler':
                 # the library's own request-handling task (inside timeout_after(processing_timeout) and the slot limiter)
                 await sessions.settle(3)
-                proto.data_received(b'{"jsonrpc":"2.0","method":"m","params":[],"id":1}\n')
+                form = case.get('form', 'request')
+                proto.data_received({'request': b'{"jsonrpc":"2.0","method":"m","params":[],"id":1}\n',
+                                     'notification': b'{"jsonrpc":"2.0","method":"m","params":[]}\n',
+                                     'batch_notification': b'[{"jsonrpc":"2.0","method":"m","params":[]}]\n',
+                                     'batch_request': b'[{"jsonrpc":"2.0","method":"m","params":[],"id":1}]\n'}[form])
                 await sessions.settle(6)
                 hts = [x for x in asyncio.all_tasks(loop) if '_throttled_request' in getattr(x.get_coro(), '__qualname__', '')]
                 if len(hts) != 1:
@@ -91,6 +95,26 @@ def site_scenario(case):
                 if case.get('lower'):
                     s._incoming_concurrency.set_target(max(1, s._incoming_concurrency.max_concurrent - 5))
                 await asyncio.sleep(case['cancel_at'] / 2)
+                delivered = not t.done()
+                t.cancel()
+                await sessions.settle(10)
+                await asyncio.sleep(0.5)
+                return {'delivered': delivered, 'task': 'still running' if not t.done() else 'cancelled' if t.cancelled() else
+                        ('normal' if t.exception() is None else type(t.exception()).__name__), 'member': None, 'hung': not t.done()}
+            if case['site'] == 'message_task':
+                # the connection's own message-processing task (it sits in the join of the session's task group), cancelled from
+                # outside while the connection is open, or closing but not yet closed (close() called, the peer silent)
+                await sessions.settle(3)
+                if case.get('closing'):
+                    def close():
+                        ft.closing = True
+                        ft.log.append(('close',))
+                    ft.close = close
+                    ft.close()
+                if case.get('busy'):
+                    proto.data_received(b'{"jsonrpc":"2.0","method":"m","params":[],"id":1}\n')
+                await asyncio.sleep(case['cancel_at'])
+                t = proto._process_messages_task
                 delivered = not t.done()
                 t.cancel()
                 await sessions.settle(10)
@@ -294,6 +318,26 @@ class C12(Prop):
                             cl = site_oracle(case, obs)
                             if cl and sum(1 for f in out if f.case.get('site_scenario')) < 2:
                                 out.append(Failure(case, obs, cl))
+        for tr in ('rs', 'us'):
+            for cancel_at in (0.05, 1.0):
+                for form in ('notification', 'batch_notification', 'batch_request'):
+                    for lower in (False, True):
+                        case = {'site_scenario': True, 'site': 'handler', 'wrap': 'lowered' if lower else 'none', 'as_member': False, 'cancel_at': cancel_at,
+                                'transport': tr, 'lower': lower, 'form': form}
+                        obs = site_scenario(case)
+                        ns += 1
+                        cl = site_oracle(case, obs)
+                        if cl and sum(1 for f in out if f.case.get('site_scenario')) < 3:
+                            out.append(Failure(case, obs, cl + f' (the handler was processing a {form})'))
+                for closing in (False, True):
+                    for busy in (False, True):
+                        case = {'site_scenario': True, 'site': 'message_task', 'wrap': 'none', 'as_member': False, 'cancel_at': cancel_at, 'transport': tr,
+                                'closing': closing, 'busy': busy}
+                        obs = site_scenario(case)
+                        ns += 1
+                        cl = site_oracle(case, obs)
+                        if cl and sum(1 for f in out if f.case.get('site_scenario')) < 3:
+                            out.append(Failure(case, obs, cl + (' (the connection was closing but not yet closed)' if closing else '')))
         ctx['extra_evals'] += ns
         ctx['notes'].append(f'external cancellation landing in the library\'s own timeout blocks (request / batch awaiting its response, '
                             f'send blocked behind a full buffer, graceful close that does not complete): {ns} scenarios')
